@@ -179,7 +179,7 @@ def renderViolation (via : String) (src : Dyn) (text : Outcome Dyn) (back : Opti
   let numeric : Bool := match src with | .int .. | .f64 _ | .f32 _ => true | _ => false
   match text with
   | .panic _ => some "panic"
-  | .err _ => some "render-rejected"
+  | .err _ => if finite then some "render-rejected" else none   -- a non-finite value refused: nothing that marshals
   | .ok t =>
     let lit : Option Bytes :=
       match via, t with
